@@ -83,6 +83,11 @@ class Ctx:
         if k == "idx":
             b, bs = self.tr(t[1])
             return f"({self.uf('idx%d' % t[2], [bs], 'V')} {b})", "V"
+        if k == "index":
+            b, bs = self.tr(t[1])
+            i, is_ = self.tr(t[2], "Int")
+            s_ = want or "V"
+            return f"({self.uf('index', [bs, is_], s_)} {b} {i})", s_
         if k == "discr":
             b, bs = self.tr(t[1], "Int")
             if bs == "Int":
@@ -148,7 +153,7 @@ class Ctx:
 
     RET = {
         "StrategiesInfo::regret": "F", "StrategiesInfo::player_utility": "F", "StrategiesInfo::player_regret": "F",
-        "eq": "Bool", "ends_with": "Bool", "sum::<f64>": "F", "f64>::max": "F", "is_finite": "Bool", "::len": "Int",
+        "eq": "Bool", "ends_with": "Bool", "sum::<f64>": "F", "f64>::max": "F", "is_finite": "Bool", "::len": "Int", "PartialOrd>::gt": "Bool", "PartialOrd>::ge": "Bool", "PartialOrd>::lt": "Bool", "PartialOrd>::le": "Bool",
     }
 
     def ret_sort(self, fname):
